@@ -325,7 +325,8 @@ func c11ErrorMap(c *Ctx) {
 		var errEdges []ssax.Edge
 		for _, cd := range ssax.Conds(gor) {
 			if (cd.Op == token.NEQ || cd.Op == token.EQL) && ssax.IsNilConst(ssax.Resolve(cd.Y)) {
-				if _, isPhi := ssax.Resolve(cd.X).(*ssa.Phi); isPhi {
+				// (the merged error of the handlers — not a nil test of a handler function value chosen by a lookup helper)
+				if _, isPhi := ssax.Resolve(cd.X).(*ssa.Phi); isPhi && cd.X.Type().String() == "error" {
 					if e, ok := cd.EdgeWhere(token.NEQ); ok {
 						errEdges = append(errEdges, e)
 					}
